@@ -204,3 +204,23 @@ def straightline_def(func: Func, name: str, before_stmt) -> Optional[ast.AST]:
                     if any(_binds(t, name) for t in tg):
                         last = None
     return last
+
+
+def unpacked_pair(func, call_node, parents):
+    """Names that receive the two results of `call_node`: `a, b = call(...)`, or `t = call(...)` followed by
+    `a, b = t` (t bound once).  None when the pair is not bound to two names."""
+    import ast as _ast
+
+    par = parents.get(id(call_node))
+    two = lambda t: isinstance(t, _ast.Tuple) and len(t.elts) == 2 and all(isinstance(x, _ast.Name) for x in t.elts)
+    if isinstance(par, _ast.Assign) and len(par.targets) == 1 and two(par.targets[0]):
+        return tuple(x.id for x in par.targets[0].elts)
+    if isinstance(par, _ast.Assign) and len(par.targets) == 1 and isinstance(par.targets[0], _ast.Name):
+        tmp = par.targets[0].id
+        defs = [n for n in func.own_nodes() if isinstance(n, _ast.Assign) and any(isinstance(t, _ast.Name) and t.id == tmp for t in n.targets)]
+        if len(defs) != 1:
+            return None
+        for n in func.own_nodes():
+            if isinstance(n, _ast.Assign) and len(n.targets) == 1 and two(n.targets[0]) and isinstance(n.value, _ast.Name) and n.value.id == tmp:
+                return tuple(x.id for x in n.targets[0].elts)
+    return None
